@@ -1,6 +1,7 @@
 import KmipProps.C04
 import KmipModel.Stream
 import KmipProofs.IoLemmas
+import KmipProofs.IoStackLemmas
 /-
   C06 — message framing on a stream is independent of how the transport fragments bytes.
 
@@ -238,5 +239,137 @@ theorem C06_limit_chunk_independent (s : Io.Src) (n k : Nat) :
 /-- non-vacuity: a source in five reads (two of them empty, the last with the error attached) against the flat bytes -/
 example : viewSrc ((Io.Src.mk [[1, 2], [], [3], [], [4, 5, 6]] .eof true).readFull 4) = .ok ([1, 2, 3, 4], [5, 6], .eof) := by
   rfl
+
+/-! ### the whole reader stack: bufio over LimitReader over bufio over … over the transport, at any depth
+
+`Io.Stack` (KmipModel/IoStack.lean) models the stack the Decoder really reads through, layer by layer after the Go sources.
+The decoder model (`Dec`: a window of bytes, the error that follows it) is its FLAT view.  The theorems below say that each
+primitive the Decoder uses - io.ReadFull, ReadByte, io.CopyN(Discard), entering and leaving a nested structure - computes on
+a stack exactly what the model computes on the flat view, for every chunking of the transport, every buffer content and
+every depth.  `Io.Stack.Inv` is the guard: data arrives together with an error only if that error is EOF (the property's
+"data returned together with EOF"), and there are fewer than 100 consecutive zero-length reads (bufio.Reader gives up with
+io.ErrNoProgress at 100 - the one way "zero-length reads" CAN change the outcome, see the example at the end). -/
+
+/-- the flat view of what a primitive leaves behind -/
+def viewStack : Outcome (Bytes × Io.Stack) → Outcome (Bytes × Bytes × ErrClass)
+  | .ok (b, s') => .ok (b, s'.content, s'.fin)
+  | .err e => .err e
+  | .panic p => .panic p
+
+def viewDecE : Outcome (Bytes × Dec) → Outcome (Bytes × Bytes × ErrClass)
+  | .ok (b, d') => .ok (b, d'.win, d'.fin.err)
+  | .err e => .err e
+  | .panic p => .panic p
+
+/-- `io.ReadFull` through any stack = the model's flat `readFull` -/
+theorem C06_stack_readFull (s : Io.Stack) (hi : s.Inv) (f : Fin) (hf : s.fin = f.err) (k last : Nat) :
+    viewStack (s.readFull k) = viewDecE (readFull ⟨s.content, f, last⟩ k) := by
+  obtain ⟨h1, h2⟩ := Io.stackReadFull_flat s k hi
+  unfold readFull
+  by_cases hk : k ≤ s.content.length
+  · obtain ⟨s', e1, _, e3, e4⟩ := h1 hk
+    simp only [hk, if_true, e1, viewStack, viewDecE, e3, e4, hf]
+  · rw [h2 hk]
+    simp only [hk, if_false, viewStack, viewDecE]
+    by_cases hz : s.content.length = 0
+    · simp [hz, hf]
+    · simp [hz]
+
+/-- `ReadByte` on a buffered stack = the model's flat `readByte` -/
+theorem C06_stack_readByte (i : Io.Stack) (sz : Nat) (pend : Bytes) (er : Option ErrClass)
+    (hi : (Io.Stack.buf i sz pend er).Inv) (f : Fin) (hf : (Io.Stack.buf i sz pend er).fin = f.err) (last : Nat) :
+    (match (Io.Stack.buf i sz pend er).readByte with
+      | .ok (c, s') => Outcome.ok (c.toNat, s'.content, s'.fin)
+      | .err e => .err e
+      | .panic p => .panic p) =
+    (match readByte ⟨(Io.Stack.buf i sz pend er).content, f, last⟩ with
+      | .ok (c, d') => Outcome.ok (c, d'.win, d'.fin.err)
+      | .err e => .err e
+      | .panic p => .panic p) := by
+  obtain ⟨h1, h2⟩ := Io.readByte_flat i sz pend er hi
+  unfold readByte
+  cases hc : (Io.Stack.buf i sz pend er).content with
+  | nil => rw [h1 hc]; simp [hf]
+  | cons c rest =>
+    obtain ⟨s', e1, _, e3, e4⟩ := h2 c rest hc
+    rw [e1]; simp [e3, e4, hf]
+
+/-- `io.CopyN(ioutil.Discard, r, ll)` through any stack = the model's skip: `ll` flat bytes dropped, or the source's RAW error -/
+theorem C06_stack_skip (s : Io.Stack) (hi : s.Inv) (ll : Nat) :
+    (match s.copyNDiscard ll with
+      | .ok s' => Outcome.ok (s'.content, s'.fin)
+      | .err e => .err e
+      | .panic p => .panic p) =
+    (if ll ≤ s.content.length then .ok (s.content.drop ll, s.fin) else .err s.fin) := by
+  obtain ⟨h1, h2⟩ := Io.copyNDiscard_flat s ll hi
+  by_cases hk : ll ≤ s.content.length
+  · obtain ⟨s', e1, _, e3, e4⟩ := h1 hk
+    rw [e1, if_pos hk]; simp [e3, e4]
+  · rw [h2 hk, if_neg hk]
+
+/-- entering a nested structure: `NewDecoder(io.LimitReader(d.r, n))` shows the nested decoder exactly the model's `limitDec` window -/
+theorem C06_stack_enter (s : Io.Stack) (hi : s.Inv) (f : Fin) (hf : s.fin = f.err) (n last : Nat) :
+    (s.nested n).Inv ∧ (s.nested n).content = (limitDec ⟨s.content, f, last⟩ n).win ∧
+    (s.nested n).fin = (limitDec ⟨s.content, f, last⟩ n).fin.err := by
+  obtain ⟨g1, g2, g3⟩ := Io.nested_view s n hi
+  refine ⟨g1, ?_, ?_⟩
+  · rw [g2]; unfold limitDec
+    by_cases h : n ≤ s.content.length
+    · simp [h]
+    · simp only [h, if_false]; exact List.take_of_length_le (by omega)
+  · unfold limitDec
+    by_cases h : n ≤ s.content.length
+    · simp [h, g3 h, Fin.err]
+    · simp [h, Io.Stack.nested, Io.Stack.fin, hf]
+
+/-- leaving it: whatever the nested decoder did (`Io.Reach`: any reads, any read-ahead of its bufio), once its window is used up the
+    stack underneath has advanced by exactly the declared length - "each successful Decode consumes exactly its own message",
+    one level down, for every nested structure -/
+theorem C06_stack_leave (s : Io.Stack) (n : Nat) (t : Io.Stack) (hi : s.Inv) (hr : Io.Reach (s.nested n) t)
+    (hn : n ≤ s.content.length) (hc : t.content = []) :
+    ∃ s' e, t = .buf (.lim s' 0) 4096 [] e ∧ Io.Reach s s' ∧ s'.Inv ∧ s'.content = s.content.drop n ∧ s'.fin = s.fin :=
+  Io.nested_pop s n t hi hr hn hc
+
+/-- and every state the Decoder's primitives can take a stack to is again one the theorems apply to -/
+theorem C06_stack_closed (s t : Io.Stack) (hi : s.Inv) (hr : Io.Reach s t) :
+    t.Inv ∧ (∃ x, s.content = x ++ t.content) ∧ t.fin = s.fin := Io.reach_law hr hi
+
+theorem C06_stack_readFull_reach (s : Io.Stack) (k : Nat) (b : Bytes) (s' : Io.Stack) (h : s.readFull k = .ok (b, s')) :
+    Io.Reach s s' := Io.readFull_reach s k b s' h
+
+theorem C06_stack_skip_reach (s : Io.Stack) (hi : s.Inv) (n : Nat) (s' : Io.Stack) (h : s.copyNDiscard n = .ok s') :
+    Io.Reach s s' := Io.copyNDiscard_reach s n s' hi h
+
+/-- hence two stacks with the same flat view - different transports, different fragmentation, different depth, different
+    buffer contents - are indistinguishable through ReadFull -/
+theorem C06_stack_fragmentation_irrelevant (s₁ s₂ : Io.Stack) (h₁ : s₁.Inv) (h₂ : s₂.Inv)
+    (hc : s₁.content = s₂.content) (hf : s₁.fin = s₂.fin) (k : Nat) :
+    viewStack (s₁.readFull k) = viewStack (s₂.readFull k) := by
+  cases hfin : s₁.fin with
+  | eof =>
+    rw [C06_stack_readFull s₁ h₁ .eof (by rw [hfin]; rfl) k 0, C06_stack_readFull s₂ h₂ .eof (by rw [← hf, hfin]; rfl) k 0, hc]
+  | other =>
+    rw [C06_stack_readFull s₁ h₁ .ioerr (by rw [hfin]; rfl) k 0, C06_stack_readFull s₂ h₂ .ioerr (by rw [← hf, hfin]; rfl) k 0, hc]
+
+/-- non-vacuity: a transport in six reads (two of them empty, the last with EOF attached) under the Decoder's own bufio, a limit
+    reader and a second bufio of 16 bytes, satisfies the guard, and four bytes come out as from the flat string -/
+def exStack : Io.Stack :=
+  .buf (.lim (Io.Stack.top ⟨[[1, 2], [], [3], [], [4, 5, 6], [7]], .eof, true⟩) 6) 16 [] none
+
+example : exStack.Inv := by
+  refine ⟨⟨⟨by intro _; rfl, by decide⟩, by decide, by intro e h; cases h⟩, by decide, by intro e h; cases h⟩
+
+example : viewStack (exStack.readFull 4) = .ok ([1, 2, 3, 4], [5, 6], .eof) := by rfl
+
+/-- the excluded point is real: with 100 empty reads in a row ReadByte gives up (io.ErrNoProgress) although a byte follows,
+    while ReadFull on the same source ploughs on - so the guard `maxEmptyRun < 100` cannot be dropped -/
+example : (Io.Stack.top ⟨List.replicate 100 [] ++ [[9]], .eof, false⟩).readByte = .err .other := by rfl
+
+example : viewStack ((Io.Stack.src ⟨List.replicate 100 [] ++ [[9]], .eof, false⟩).readFull 1) = .ok ([9], [], .eof) := by rfl
+
+/-- so is the other one: a last chunk arriving together with a NON-EOF error exactly at the end of a structure makes the limit
+    reader pass that error on where the flat view ends in EOF (the trailing optional fields of the structure then fail) -/
+example : ((Io.Stack.lim (.src ⟨[[1, 2]], .ioerr, true⟩) 2).read 8).2.1 = some .other ∧
+    (Io.Stack.lim (.src ⟨[[1, 2]], .ioerr, true⟩) 2).fin = .eof := by decide
 
 end Kmip
